@@ -164,6 +164,16 @@ HasNullableCounted(nd) ==
                        \/ HasNullableCounted(nd.x)
     [] nd.t \in {"cat", "alt"} -> \E k \in 1..Len(nd.xs) : HasNullableCounted(nd.xs[k])
     [] OTHER -> FALSE
+\* D47: when the maximum of such a repeat is unbounded (or far above the size of the fiber pool) the engine does not merely lose
+\* matches: an iteration that matches nothing goes round the repeat section again and again without consuming input, each time
+\* through REPEAT_END / REPEAT_ANY, which the endless-loop guard does not cover, creating fibers until the pool is exhausted - the
+\* scan of ANY data ends with ERROR_TOO_MANY_RE_FIBERS.
+RECURSIVE HasNullableCountedUnbounded(_)
+HasNullableCountedUnbounded(nd) ==
+  CASE nd.t = "rep" -> \/ ("brace" \in DOMAIN nd /\ nd.brace /\ Nullable(nd.x) /\ (nd.hi < 0 \/ nd.hi > 200))
+                       \/ HasNullableCountedUnbounded(nd.x)
+    [] nd.t \in {"cat", "alt"} -> \E k \in 1..Len(nd.xs) : HasNullableCountedUnbounded(nd.xs[k])
+    [] OTHER -> FALSE
 StringObsOK_D40(c) ==
   /\ HasNullableCounted(c.ast)
   /\ \A j \in 1..(Len(c.obs) - 1) : c.obs[j][1] < c.obs[j + 1][1]
